@@ -346,3 +346,23 @@ Proof. exact walk_complete_nested_lemma. Qed.
 Theorem never_stopping_hook_is_plain_walk :
   forall old tree final_lv, run_walk_s old tree final_lv None = run_walk old tree final_lv.
 Proof. exact run_walk_s_never. Qed.
+
+(* ---- an interruption inside the work of a seed worker (cache that stores the tiles of a meta tile one by one) *)
+
+(* For every cache content, every meta tile and every number j of store_tile calls after which the worker process dies: when
+   the walker visits the meta tile again (continued run: the saved progress never covers a meta tile whose hand-over was not
+   finished, resume_covers) it hands over the members that are still missing and the worker's _create_meta_tile stores the
+   meta tile: afterwards every member exists.  (The re-check under the lock looks at ALL members; ex_interrupted_store in
+   Seed_proofs.v shows the lock tile alone is not enough.)  Tied to the implementation by the store_crash probe of the
+   harness: the store_tile calls of every hand-over are compared with worker_stores (correspondence meta_store). *)
+Theorem interrupted_store_completed :
+  forall c members j t,
+    let c1 := cache_after c (worker_stores c members (uncached_members c members)) j in
+    let c2 := c1 ++ worker_stores c1 members (uncached_members c1 members) in
+    In t members -> cache_has c2 t = true.
+Proof. exact interrupted_store_completed_lemma. Qed.
+
+(* a completely cached meta tile causes no store (and no upstream request) whatever is handed over *)
+Theorem cached_meta_tile_not_stored_again :
+  forall c members handed, forallb (cache_has c) members = true -> worker_stores c members handed = [].
+Proof. exact worker_stores_nothing_cached. Qed.
